@@ -715,6 +715,31 @@ func main() {
 		}
 	}
 
+	// --- an upload opened where the policy allows it, its identifier then presented for a repository the
+	// policy rejects (and the other way round): the decision is about the call at hand, whatever the
+	// wrapper has let through before
+	for k, n := 0, run.N(48, 480); k < n; k++ {
+		sel := k%2 == 0
+		w := newWorld(run, sel, func(string, ocifilter.AccessKind) bool { return true })
+		open := []string{"a", "public/x", "c"}[k/2%3]
+		other := []string{"secret", "a/b", "private"}[k/6%3]
+		w.step(&model.Op{Kind: "PushBlobChunked", Repo: open, Hint: []int{0, 1, 100}[k%3]})
+		h := len(w.wrapped.Writers) - 1
+		if h < 0 {
+			continue
+		}
+		if k%4 < 2 {
+			w.step(&model.Op{Kind: "W.Write", H: h, Data: []byte("first piece")})
+		}
+		rejectOther := k/24%2 == 0
+		w.pol = func(repo string, kind ocifilter.AccessKind) bool { return (repo == other) != rejectOther }
+		run.Eval(1)
+		run.Count("foreign_resume_calls", 1)
+		w.step(&model.Op{Kind: "PushBlobChunkedResume", Repo: other, H: h, Offset: []int64{-1, 0, 11}[k%3]})
+		w.pol = func(string, ocifilter.AccessKind) bool { return true }
+		w.step(&model.Op{Kind: "PushBlobChunkedResume", Repo: open, H: h, Offset: -1})
+	}
+
 	// --- random histories
 	nh := run.N(3000, 40000)
 	for h := 0; h < nh; h++ {
